@@ -7,7 +7,7 @@ from .. import core, gen, impl_aio, scen
 from . import c01
 
 ID = "C17"
-BUDGET = {"quick": 200, "thorough": 20000}
+BUDGET = {"quick": 800, "thorough": 100000}
 RULE = ("scenario = asyncio scheduler (naive or fixed offset) under a virtual-time event loop with 1-4 jobs of all types (whole-second "
         "timings and intervals; limits, stop, batched lists, skip_missing as in C01-C09), coroutine durations per run from "
         "{0, < period, = period, > period} (+ a per-job millisecond offset so that distinct jobs never act at one instant), some "
